@@ -200,6 +200,9 @@ type Program struct {
 	Top       *Call // the top-level call (callee must be a pipeline)
 	// Desc describes the template instance (for evidence and replay).
 	Desc string
+	// Py: stages are declared as python modules (src py "pystages/<NAME>")
+	// instead of compiled executables (src comp "<NAME>").
+	Py bool
 }
 
 func (p *Program) Struct(name string) *StructDecl {
@@ -400,7 +403,11 @@ func (p *Program) MRO() string {
 		fmt.Fprintf(&b, "stage %s(\n", s.Name)
 		writeParams(&b, "in ", s.Ins)
 		writeParams(&b, "out", s.Outs)
-		fmt.Fprintf(&b, "    src comp \"%s\",\n", s.Name)
+		if p.Py {
+			fmt.Fprintf(&b, "    src py   \"pystages/%s\",\n", s.Name)
+		} else {
+			fmt.Fprintf(&b, "    src comp \"%s\",\n", s.Name)
+		}
 		if s.Split {
 			b.WriteString(") split (\n")
 			writeParams(&b, "in ", s.ChunkIns)
